@@ -147,6 +147,9 @@ def filter_descs(quick):
     for B, A in (([0.5, -0.124], [1.0, -0.5488]), ([0.3, 0.2, 0.1], [1.0, -0.5]), ([0.3, 0.2, 0.1], [2.0, -0.5, 0.25]),
                  ([1.0], [1.0, -0.9]), ([0.25, 0.25, 0.25, 0.25], [1.0, 0.1, -0.2])):
         out.append({"cls": "IirFilter", "B": B, "A": A, "dtype": "float64"})
+    # no feedback coefficients (A has one element): never run on the compiled module, whose pre-fix kernel writes
+    # through a zero-sized buffer (memory corruption, aborts the process)
+    out.append({"cls": "IirFilter", "B": [0.5, 0.25], "A": [2.0], "dtype": "float64", "source_only": True})
     for name in ("CdXtractRolandDeemphFilter", "ChickSysRolandDeemphFilter", "ChickSysStandardDeemphFilter",
                  "ChickSysDarkerDeemphFilter", "ChickSysSpecialDeemphFilter"):
         out.append({"cls": "preset", "name": name, "dtype": "int16"})
@@ -352,6 +355,8 @@ class Check(CheckBase):
         subs = self._subjects(rep)
         decide = subs[0][0]
         for subject, ns in subs:
+            if d.get("source_only") and subject == "compiled":
+                continue
             sub = rep if subject == decide else Report()
             before = sub.evaluations
             if shard["part"] == "short":
